@@ -32,7 +32,8 @@ Clauses(r) ==
      \cup (IF r.transferred >= 0 /\ copied > r.transferred THEN {"transferred"} ELSE {})       \* never more than actually transferred
      \cup (IF ~r.closed \/ r.result \in {"hang", "panic"} THEN {"end"} ELSE {})                \* the stream ends
      \cup (IF r.missing > 0 /\ ~(r.result = "err" \/ (~r.noop /\ HasError(r.stream))) THEN {"silent"} ELSE {})   \* incomplete => error
-SetToSeq(S) == CHOOSE f \in [1..Cardinality(S) -> S] : \A i, j \in 1..Cardinality(S) : i # j => f[i] # f[j]
+RECURSIVE SetToSeq(_)
+SetToSeq(S) == IF S = {} THEN <<>> ELSE LET x == CHOOSE x \in S : TRUE IN <<x>> \o SetToSeq(S \ {x})
 VARIABLE l
 Init == l = 1
 Step == l <= Len(Rec) /\ PrintT(<<"VERDICT", ToJson([id |-> Rec[l].id, viol |-> SetToSeq(Clauses(Rec[l]))])>>) /\ l' = l + 1
